@@ -215,6 +215,9 @@ def run(ctx: core.Ctx):
     for k in range(n_rand):
         dec = rng.choice([3, 3, 3, 0, 1, 2, 4, 6, 9])
         cases.append({"engine": fll.rengine(rng, dec, k), "dec": dec, "origin": f"seeded-{k}"})
+    for k in range(3 if ctx.quick else 30):       # wide engines: more entries in every list than a printer's size limit would pass silently
+        dec = rng.choice([3, 2, 6])
+        cases.append({"engine": fll.rengine(rng, dec, 2000 + k, wide=True), "dec": dec, "origin": f"seeded-wide-{k}"})
     for name, eng in example_engines(fl):
         with fl.settings.context(decimals=3):
             cases.append({"engine": fll.project(fl, eng, 3), "dec": 3, "origin": name})
@@ -230,6 +233,13 @@ def run(ctx: core.Ctx):
                         x = getattr(t, a)
                         if math.isfinite(x):
                             setattr(t, a, x * (1 + rng.uniform(-1e-3, 1e-3)) + rng.uniform(-1e-7, 1e-7))
+                    # heights and weights that are not 1.0 but print as 1 / lie well inside the comparison tolerance of 1
+                    if type(t).__name__ in fll.ATTRS and type(t).__name__ != "Constant" and t.height == 1.0 and rng.random() < 0.5:
+                        t.height = rng.choice([math.nextafter(1.0, 0.0), math.nextafter(1.0, 2.0), 0.7 + 0.2 + 0.1, 1.0 - 1e-7, 1.0 + 3e-4, 1.0 - 4e-4])
+            for b in real.rule_blocks:
+                for r_ in b.rules:
+                    if r_.weight == 1.0 and rng.random() < 0.3:
+                        r_.weight = rng.choice([math.nextafter(1.0, 0.0), math.nextafter(1.0, 2.0), 1.0 - 1e-7, 1.0 + 3e-4])
             cases.append({"engine": fll.project(fl, real, dec), "dec": dec, "origin": f"perturbed-{k}", "real": real})
     recorded = []
     for c in cases:
